@@ -58,6 +58,7 @@ def main(tier, replay=None):
         lib = f_lib.result()
         hmap = vlib.build_harness_wb(lib, ["h_map.c"], os.path.join(wd, "h_map"), ("Tree.c",), chk.notes)
         hseq = vlib.build_harness(lib, ["h_seq.c"], os.path.join(wd, "h_seq"))
+        hgc = vlib.build_harness_wb(lib, ["h_gc.c"], os.path.join(wd, "h_gc"), ("GC.c",), chk.notes)
         own = {v: f.result() for v, f in f_own.items()}
         r_tab = f_tab.result()
         r_seq = {k: f.result() for k, f in f_seq.items()}
@@ -117,6 +118,12 @@ def main(tier, replay=None):
         cs.run(seqgen.header("Probe", list(range(8))),
                [seqgen.random_history(rng, kind, 8, nops(), maxlen=40 if quick else 200) for _ in range(nexec)], "random/" + kind)
         cs.run(seqgen.header("Box", list(range(8))), [box_history(rng, kind, 8, nops()) for _ in range(nexec // 2)], "box/" + kind)
+
+    # containers of Boxes deleted by the COLLECTOR (dropped, or still alive at exit) rather than by hand: what the Boxes own is
+    # finalised exactly once although the same sweep has it on its own list (judged by HeapTrace, one process per program)
+    cg = runner.Campaign(chk, hgc, "HeapTrace", "HeapTrace_final.cfg", per_process=True)
+    cg.run([], [["reset", "boxcont %d" % m] for m in ((9, 40, 300) if quick else (5, 9, 40, 300, 3000))], "collected-containers", sample=False)
+    cg.report()
 
     chk.cov["rule"] = ("an execution = one history of container calls with Probe (or Box-of-Probe) elements on the real "
                        "library; after every call TLC checks: serials inside all containers pairwise distinct and equal to "
